@@ -257,7 +257,7 @@ func c19one(c *fw.Check, mi int, m *ir.Module, s string, mode string, limit, chu
 
 func runC19(c *fw.Check) {
 	c.Level = "fault_enumeration"
-	c.Rule = "for each of 6 modules (all WriteTo print sections; parsed and constructed-never-printed) and s=String(): a writer failing at EVERY byte offset k in 0..len(s) in 3 failure flavours (partial+error, whole-call error, full-accept+error) x {plain io.Writer, io.StringWriter}, short-write-without-error at every k, chunk sizes {1,2,3,7,64}; after every failing run a clean WriteTo/String on the same module (history: failure must not leak). Oracle: n==bytes accepted, err==first writer error (identity), delivered==s[:n], zero calls after failure, clean run == s. distinct = distinct (module,mode,offset,chunk,writer kind)."
+	c.Rule = "for each of 6 modules (all WriteTo print sections; parsed and constructed-never-printed) and s=String(): a writer failing at EVERY byte offset k in 0..len(s) in 3 failure flavours (partial+error, whole-call error, full-accept+error) x {plain io.Writer, io.StringWriter}, short-write-without-error at every k, chunk sizes {1,2,3,7,64}; after every failing run a clean WriteTo/String on the same module (history: failure must not leak). PLUS standard-library writers passed as themselves: *bytes.Buffer, *strings.Builder, io.Pipe readers giving up after k bytes, real *os.File (good, read-only, closed, /dev/full, and a regular file the kernel stops accepting after exactly k bytes for every k via RLIMIT_FSIZE), acceptance measured from outside. Oracle: n==bytes accepted, err==first writer error (identity), delivered==s[:n], zero calls after failure, clean run == s. distinct = distinct (module,mode,offset,chunk,writer kind)."
 	ms := c19modules()
 	stride := 1
 	for mi, m := range ms {
@@ -266,6 +266,7 @@ func runC19(c *fw.Check) {
 			c.Violation("writeto/string-unstable", c19case{Module: mi, What: "String() twice differs"})
 		}
 		c.Sample(map[string]interface{}{"module": mi, "len": len(s), "text_head": fw.Trunc(s, 120), "fault": "writer fails at each k in 0..len, flavours partial/whole/late/short"})
+		c19stdWriters(c, mi, m, s)
 		for _, ch := range []int{0, 1, 2, 3, 7, 64} {
 			c19one(c, mi, m, s, "ok", 0, ch, false)
 			c19one(c, mi, m, s, "ok", 0, ch, true)
